@@ -64,6 +64,10 @@ struct P1Cfg {
     /// the storers fall silent once the node has joined: the first put fails (no storage node
     /// answers its lookup); the second call comes after that failure
     dead: bool,
+    /// with `dead`: instead of staying silent the storers answer the put's lookup WITHOUT a write
+    /// token (nodes that do not store) and report a new public address for the node (its NAT
+    /// mapping changed): the first put fails all the same - nobody can be written to
+    tokenless: bool,
 }
 
 struct Out1 {
@@ -161,6 +165,20 @@ fn part1(cfg: &P1Cfg, track: bool) -> Out1 {
         if let Event::EndpointRecv { ep, dgram } = &ev {
             if !cfg.dead {
                 net.handle(&mut w, *ep, dgram);
+            } else if cfg.tokenless {
+                let i = net.index_of(*ep).expect("ep");
+                if let Some(q) = krpc::Krpc::parse(&dgram.bytes) {
+                    if q.is_query() {
+                        net.eps[i].issue_token = false;
+                        if let Some(bytes) = net.honest_reply(i, &q, dgram.from, w.now) {
+                            let (mut tree, _) = crate::bencode::decode(&bytes).expect("own reply");
+                            let moved = std::net::SocketAddrV4::new(*dgram.from.ip(), 7001);
+                            tree.set("ip", crate::bencode::B::bytes(krpc::compact_addr(&moved)));
+                            let from = net.eps[i].addr;
+                            w.send_raw(from, dgram.from, crate::bencode::encode(&tree));
+                        }
+                    }
+                }
             }
         }
         if done1.is_none() && w.result(c1).is_some() {
@@ -201,6 +219,15 @@ fn part1(cfg: &P1Cfg, track: bool) -> Out1 {
             }
             if r1 == "Ok" {
                 problems.push(("part1-setup/dead-network".into(), format!("the first put returned Ok although no storer answered")));
+            }
+            // and at rest the node keeps nothing about either put
+            let snap = w.snapshot(a);
+            if c2.map(|c| w.result(c).is_some()).unwrap_or(false) && snap.core.put_queries.iter().any(|q| *q.target.as_bytes() == target) {
+                w.run_for(10 * SEC);
+                let snap = w.snapshot(a);
+                if snap.core.put_queries.iter().any(|q| *q.target.as_bytes() == target) {
+                    problems.push(("put-kept-after-completion".into(), format!("both puts have returned ({r1}, {r2}) and ten more seconds have passed: the node still holds a put query for the target")));
+                }
             }
         }
         let expect: Vec<&str> = if cfg.dead {
@@ -498,7 +525,7 @@ fn run(tier: Tier, shard: usize, nshards: usize, _seed: u64) -> Partial {
     // ---- part 1
     for salted in [false, true] {
         // number of events in P1's lifetime (placement None never issues P2 early)
-        let base = part1(&P1Cfg { rel: 0, cas: 0, salted, at: None, sync: false, dead: false }, false);
+        let base = part1(&P1Cfg { rel: 0, cas: 0, salted, at: None, sync: false, dead: false, tokenless: false }, false);
         out.gauge_max("events_in_first_put_lifetime", base.events as u64);
         for rel in 0..4 {
             for cas in 0..3 {
@@ -508,7 +535,7 @@ fn run(tier: Tier, shard: usize, nshards: usize, _seed: u64) -> Partial {
                     if !mine() {
                         continue;
                     }
-                    let cfg = P1Cfg { rel, cas, salted, at, sync, dead: false };
+                    let cfg = P1Cfg { rel, cas, salted, at, sync, dead: false, tokenless: false };
                     let o = part1(&cfg, at == Some(2));
                     out.add("executions", 1);
                     out.add("transitions", o.steps);
@@ -525,17 +552,17 @@ fn run(tier: Tier, shard: usize, nshards: usize, _seed: u64) -> Partial {
                     }
                 }
                 // the second call after a first put that FAILED (silent storers)
-                for sync in [false, true] {
+                for (sync, tokenless) in [(false, false), (true, false), (false, true), (true, true)] {
                     if !mine() {
                         continue;
                     }
-                    let o = part1(&P1Cfg { rel, cas, salted, at: None, sync, dead: true }, false);
+                    let o = part1(&P1Cfg { rel, cas, salted, at: None, sync, dead: true, tokenless }, false);
                     out.add("executions", 1);
                     out.add("transitions", o.steps);
                     out.add("second_after_failed_first", (o.r2 != "PENDING" && o.r1 != "Ok") as u64);
                     out.outcomes.insert(format!("dead:{}:{}:{}->{}|{}", REL[rel], CAS[cas], salted, o.r1, o.r2));
                     for (k, d) in &o.problems {
-                        out.violation(format!("{k}{}", if sync { "/blocking-api" } else { "" }), format!("{}{d} [salted {salted}]", if sync { "[blocking Dht API] " } else { "" }), json!({"part": 1, "rel": rel, "cas": cas, "salted": salted, "at": null, "sync": sync, "dead": true}));
+                        out.violation(format!("{k}{}{}", if tokenless { "/tokenless-storers-new-address" } else { "" }, if sync { "/blocking-api" } else { "" }), format!("{}{}{d} [salted {salted}]", if sync { "[blocking Dht API] " } else { "" }, if tokenless { "[the storers answer without a token and report a new address] " } else { "" }), json!({"part": 1, "rel": rel, "cas": cas, "salted": salted, "at": null, "sync": sync, "dead": true, "tokenless": tokenless}));
                     }
                 }
             }
@@ -621,6 +648,7 @@ fn replay(v: &Value) -> Result<Option<Violation>, String> {
             at: v.get("at").and_then(|x| x.as_u64()).map(|x| x as u32),
             sync: v.get("sync").and_then(|x| x.as_bool()).unwrap_or(false),
             dead: v.get("dead").and_then(|x| x.as_bool()).unwrap_or(false),
+            tokenless: v.get("tokenless").and_then(|x| x.as_bool()).unwrap_or(false),
         };
         let sync = cfg.sync;
         for (k, d) in part1(&cfg, false).problems {
